@@ -75,7 +75,7 @@ def gen_local(rng, tier):
     n = len(case["cols"])
     v = rng.randrange(n)
     others = [u for u in range(n) if u != v]
-    ps = rng.sample(others, rng.randint(0, min(2, len(others))))
+    ps = rng.sample(others, rng.randint(0, min(rng.choice([2, 2, 3, 4]), len(others))))
     case["var"], case["parents"] = v, ps
     case["kind"] = rng.choice(KINDS)
     case["ess"] = rs(rng.choice([Fraction(1), Fraction(5), Fraction(10), Fraction(5, 2)]))
@@ -169,7 +169,7 @@ def gen_cache(rng, tier):
     for _ in range(rng.randint(4, 25)):
         v = rng.randrange(n)
         others = [u for u in range(n) if u != v]
-        calls.append([v, rng.sample(others, rng.randint(0, min(2, len(others))))])
+        calls.append([v, rng.sample(others, rng.randint(0, min(3, len(others))))])
         if rng.random() < .4 and calls:
             calls.append(list(rng.choice(calls)))
     case["calls"] = calls
